@@ -70,10 +70,16 @@ where
   async fn json_with_diagnostics(self) -> Result<T, DiagnosticsError> {
     let raw_body = self.text().await?;
     let mut de = serde_json::Deserializer::from_str(&raw_body);
-    serde_path_to_error::deserialize(&mut de).map_err(|err| DiagnosticsError::DeserializationError {
+    let value = serde_path_to_error::deserialize(&mut de).map_err(|err| DiagnosticsError::DeserializationError {
       path: err.path().to_string(),
       inner: err.into_inner(),
-    })
+    })?;
+    // like `serde_json::from_str`: anything but white space after the value makes the body invalid
+    de.end().map_err(|inner| DiagnosticsError::DeserializationError {
+      path: ".".to_string(),
+      inner,
+    })?;
+    Ok(value)
   }
 
   #[cfg(feature = "quick-xml")]
